@@ -115,6 +115,12 @@ class BuiltinMixin:
         return SBool(z3.Or(*tests) if len(tests) > 1 else tests[0])
 
     def isinstance1(self, fr, v, k, node):
+        oc = getattr(self.d.contract, 'opaque_ctors', None) or {}
+        if oc and isinstance(v, SDyn) and isinstance(k, (SBuiltin, SClass)):
+            short = (k.name if isinstance(k, SBuiltin) else k.qual).replace(':', '.').split('.')[-1].replace('ctor!', '')
+            if short in oc:
+                # objects built by the contract's opaque constructors carry the constructor's identity
+                return z3.And(Val.is_VObj(v.t), self.fld('__ctor__', v.t) == Val.VInt(z3.IntVal(class_id('ctor:' + short))))
         if isinstance(k, SBuiltin):
             nm = k.name
             r = self.type_test(v, nm)
@@ -577,7 +583,8 @@ class BuiltinMixin:
             if isinstance(v, SDyn) and not self.specmode and self.branch(Val.is_VStr(v.t)):
                 v = SStr(Val.s(v.t))
             if not isinstance(v, SStr):
-                raise Unsupported('format of a non-string argument')
+                # str() of a value that is not a string: an uninterpreted text of the value
+                v = SStr(uf('str_of', Val, z3.StringSort())(self.to_val(v)))
             pieces.append(v.t)
         if not pieces:
             return SStr(z3.StringVal(''))
